@@ -23,9 +23,15 @@ Qed.
 Fixpoint nodup_names (l : list string) : bool :=
   match l with [] => true | x :: r => (negb (mem_str x r) && nodup_names r)%bool end.
 
+(* no column still carries an inline primary_key field (outside known_C02_inline_pk_survives: create_table.rs:46 turns
+   such a field into a column-level PRIMARY KEY as soon as no table-level key is left) *)
+Definition no_inline_pk (n : table_def) : bool :=
+  forallb (fun c => match c_primary_key c with None => true | Some _ => false end) (t_columns n).
+
 Definition pk_sane (n : table_def) : bool :=
   (nodup_names (map c_name (t_columns n)) &&
    match filter is_pk (t_constraints n) with
+   | [] => no_inline_pk n                      (* a table without a primary key *)
    | [CPrimaryKey false _] => true
    | [CPrimaryKey true [p]] =>
        match find_col p (t_columns n) with
@@ -102,6 +108,21 @@ Proof. unfold all_checks. now intros ->. Qed.
 Lemma position_single x p : position_ci x [p] 1 = if ieq p x then 1 else 0.
 Proof. reflexivity. Qed.
 
+Lemma filter_pk_none cs : filter is_pk cs = [] -> find is_pk cs = None.
+Proof.
+  induction cs as [|x cs IH]; cbn [filter find]; [reflexivity|]. destruct (is_pk x); [discriminate|exact IH].
+Qed.
+Lemma auto_cols_none cs : filter is_pk cs = [] -> auto_increment_columns cs = [].
+Proof.
+  unfold auto_increment_columns. induction cs as [|x cs IH]; [reflexivity|]. cbn [filter flat_map].
+  destruct x; cbn [is_pk]; try discriminate; intro H; cbn [app]; now apply IH.
+Qed.
+Lemma table_pks_none cols cs : filter is_pk cs = [] -> table_pks cols cs = [].
+Proof.
+  unfold table_pks. induction cs as [|x cs IH]; [reflexivity|]. cbn [filter flat_map].
+  destruct x; cbn [is_pk]; try discriminate; intro H; cbn [app]; now apply IH.
+Qed.
+
 (* ---------- the entry a CREATE TABLE of the generator builds is the believed entry ----------
    [used] is the constraint list handed to build_create_table_for_backend (all constraints for a temp table, the
    non-unique ones for CREATE TABLE): only its primary keys and foreign keys matter *)
@@ -117,7 +138,27 @@ Proof.
   intros t n scols tcs checks Hname Hsane Hfp Hfk Hck Hmap.
   unfold pk_sane in Hsane. apply andb_prop in Hsane as [Hnd Hpk].
   rewrite Hfk. unfold table_entry, table_of_create. rewrite Hck, Hname.
-  destruct (filter is_pk (t_constraints n)) as [|[a pkc| | | |] [|k2 rest]] eqn:Ef; try discriminate;
+  destruct (filter is_pk (t_constraints n)) as [|k1 rest1] eqn:Ef.
+  { (* no primary key: nothing is a key column, neither in the statement nor in the believed entry *)
+    assert (Hpkof : pk_of n = None) by (unfold pk_of; now rewrite (filter_pk_none _ Ef)).
+    rewrite Hpkof, (table_pks_none _ _ Hfp).
+    rewrite (auto_cols_none _ Hfp) in Hmap.
+    assert (Hhas : existsb is_pk tcs = false) by (rewrite existsb_pk_filter, Hfp; reflexivity).
+    rewrite Hhas in Hmap. apply map_option_forall2 in Hmap. unfold no_inline_pk in Hpk.
+    assert (Hcols : filter sc_pk scols = [] /\ existsb sc_autoinc scols = false
+                    /\ map (fun c => mkCCol (sc_name c) (sc_type c) (sc_notnull c) (norm_default (sc_default c)) 0) scols
+                       = map (fun c => mkCCol (c_name c)
+                                         (match render_type (c_type c) false with Some ty => ty | None => "?" end)
+                                         (negb (c_nullable c)) (norm_default (column_default_text c)) 0) (t_columns n)).
+    { clear -Hmap Hpk. induction Hmap as [|c sc cols scs Hc Hrest IH]; [repeat split; reflexivity|].
+      cbn [forallb] in Hpk. apply andb_prop in Hpk as [Hp1 Hp2]. destruct (IH Hp2) as (I1 & I2 & I3).
+      unfold gen_coldef in Hc. cbn [mem_str existsb andb] in Hc.
+      destruct (c_primary_key c); [discriminate|]. cbn [andb orb] in Hc.
+      destruct (render_type (c_type c) false) eqn:R; [|discriminate]. injection Hc as <-.
+      cbn [filter sc_pk existsb sc_autoinc orb map sc_name sc_type sc_notnull sc_default]. rewrite I1, I2, I3, R. repeat split; reflexivity. }
+    destruct Hcols as (Hf0 & Ha0 & Hc0). rewrite Hf0, Ha0. cbn [map andb position_ci].
+    f_equal. exact Hc0. }
+  destruct k1 as [a pkc| | | |]; destruct rest1 as [|k2 rest]; try discriminate;
     try (destruct a as [|]; [destruct pkc as [|? [|? ?]]|]; discriminate).
   pose proof (filter_pk_find _ _ Ef) as Hfind.
   assert (Hpkof : pk_of n = Some (a, pkc)) by (unfold pk_of; now rewrite Hfind).
